@@ -47,6 +47,7 @@ fn main() {
     let rep: Report = match prop.as_str() {
         "c01" => vmon::c01::run(&p),
         "c02" => vmon::c02::run(&p),
+        "c04" => vmon::c04::run(&p),
         _ => {
             eprintln!("unknown property {}", prop);
             std::process::exit(2)
